@@ -31,7 +31,9 @@ SerialJudge(e) ==
   THEN (IF ~SameItf(e.orig, e.back) THEN <<"violation", "strings:interface">>
         ELSE IF ~e.eqok THEN <<"unjudged", "magnitude">>           \* a number does not fit 32 bits even for comparison
         ELSE IF BagEqRows(e.orig.a, e.back.a) /\ BagEqRows(e.orig.g, e.back.g) THEN <<"ok", "same-rows">>
-        ELSE <<"violation", "strings:rows">>)
+        \* other rows are acceptable as long as they MEAN the rounded rows (the statement is about meaning)
+        ELSE IF ~e.ok THEN <<"unjudged", "magnitude">>
+        ELSE DecideAll(EquivClauses(e.back, e.orig), e.names, e.hints, e.g, "strings"))
   ELSE \* read back through a path that re-simplifies (file reader, from_dict): same interface and the same meaning
        (IF ~SameItfSets(e.orig, e.back) THEN <<"violation", e.form \o ":interface">>
         ELSE IF e.eqok /\ BagEqRows(e.orig.a, e.back.a) /\ BagEqRows(e.orig.g, e.back.g) THEN <<"ok", "same-rows">>
